@@ -233,8 +233,14 @@ func genC06(t *core.Tape, tier string) *Scenario {
 			case 4:
 				tr["Grpc-Status-Details-Bin"] = []string{ref.EncodeBin(ref.EncodeStatusProto(&ref.Error{Code: 9, Message: "other"}), true)}
 			}
-			if t.Bool(1, 2, "adv.msg") {
-				tr["Grpc-Message"] = []string{[]string{"%", "%zz", "ok%20msg", "\xff\xfe", "%e4%b8", "a%"}[t.Choose(6, "adv.msgv")]}
+			if t.Bool(2, 3, "adv.msg") {
+				// percent-encoding grammar and its near misses, concatenated
+				segs := []string{"ok", "%20", "%4", "%", "%zz", "%E4%B8%AD", "%e4%b8", "\xff", " ", "%25", "%0", "thing"}
+				msg := ""
+				for n := 1 + t.Choose(4, "adv.msg.n"); n > 0; n-- {
+					msg += segs[t.Choose(len(segs), "adv.msg.seg")]
+				}
+				tr["Grpc-Message"] = []string{msg}
 			}
 			body := []byte{}
 			for i := 0; i < nmsgs; i++ {
@@ -374,6 +380,9 @@ func checkC06(w *World, st core.Status, r *RunResult) []Violation {
 			}
 		} else if o.FinalSet {
 			r.Probes["calls_succeeded"]++
+			if p.Canned.Status != 200 {
+				add("success-on-non-200", fmt.Sprintf("the call reported success although the response status is %d", p.Canned.Status))
+			}
 		}
 		// case-insensitive lookups for keys sent inside in-body blocks
 		if p.byz.lookupKey != "" && o.RawTrailer != nil {
